@@ -123,7 +123,7 @@ def sharing_sequences(arity: int) -> list[tuple[str, list]]:
     out.append(("lru-stress-fill-mid-statement", [tuple(part), tuple(grow), tuple(more), tuple(grow)]))
     # datatypes: churn through more datatypes than a tight table holds, then reuse evicted ones
     def lit(tag: str, dt: str) -> tuple:
-        return ("lit", sstr(Atom(tag + ".lex", nonempty=None)), None, sstr(Atom(dt + ".dt")))
+        return ("lit", sstr(Atom(tag + ".lex")), None, sstr(Atom(dt + ".dt")))
 
     churn = []
     for i, dt in enumerate(["DA", "DB", "DA", "DC", "DB", "DA", "DC"]):
